@@ -10,10 +10,13 @@ CHECK = {'level': 'exploration',
          'sets with interior tombstones (= resurrections), of 4-revision sets (all 24 orders) and of 5-revision sets (12 orders, half of '
          'them parents-first), each order pushed into its own document in 8 database configurations (conflict-allowing, conflict-free, conflict-allowing with '
          'a no-conflicts client, revs_limit 1..4), followed by a new edit and a deletion of the winner and by pushes with non-increasing generations; plus a '
-         'long-chain scenario that crosses the default revs_limit (100 / 50) next to a tombstoned branch; distinct_nontrivial = distinct (configuration, set)',
+         'long-chain scenario that crosses the default revs_limit (100 / 50) next to a tombstoned branch; distinct_nontrivial = distinct (configuration, set). '
+         'db-retry: the <= 3-revision sets (all orders) and sampled 4-revision sets (4 orders) again, with the first CAS attempt of every document write lost '
+         'to an interfering write (storage hook H1), conflict-allowing and conflict-free',
  'parts': [{'name': 'tree', 'pkg': 'db', 'run': '^TestVerif_C04_Tree$', 'timeout_q': 400, 'timeout_t': 2400},
            {'name': 'codec', 'pkg': 'db', 'run': '^TestVerif_C04_Codec$', 'timeout_q': 300, 'timeout_t': 1800},
-           {'name': 'db', 'pkg': 'db', 'run': '^TestVerif_C04_DB$', 'timeout_q': 400, 'timeout_t': 2400}],
+           {'name': 'db', 'pkg': 'db', 'run': '^TestVerif_C04_DB$', 'timeout_q': 400, 'timeout_t': 2400},
+           {'name': 'db-retry', 'pkg': 'db', 'run': '^TestVerif_C04_DBRetry$', 'timeout_q': 400, 'timeout_t': 2400}],
  'min_evals': 100000,
  'min_counters': {'tree.trees_checked': 1000000,
                   'tree.orders_compared': 100000,
@@ -33,7 +36,10 @@ CHECK = {'level': 'exploration',
                   'db.hostile_rejected': 1000,
                   'db.deletions_that_promoted_another_leaf': 100,
                   'db.sets_with_order_dependent_acceptance': 100,
-                  'db.long_chain_writes_that_pruned': 4},
+                  'db.long_chain_writes_that_pruned': 4,
+                  'db-retry.forced_cas_retries': 2000,
+                  'db-retry.winning_bodies_checked': 2000,
+                  'db-retry.deletions_that_promoted_another_leaf': 50},
  'assumptions': ['a push always carries the full ancestry of the pushed revision (truncated ancestries make the resulting tree order dependent by design)',
                  'the tombstone flag of an interior revision is not part of the compared state: an ancestor that arrives through a descendant\'s history has none',
                  'bodies of non-leaf and non-winning revisions are not compared (not promised); only the winning body is',
